@@ -21,6 +21,13 @@ import GB.C08.Spec
   RouteGRPC / Forward returned (the call's outcome), all observed by wrappers inside the harness.
   frames: `<flag hh>:<declared length|=>:<cb payload>`; recvs: `m:<cb>` | `eof` | `e:<grpc code>`; md: `<cb key>:<cb value>`.
 
+    http sp … sp=timeout:<ms>|badframe            in-process call with a ResponseWriter whose first data-frame Write stalls: the
+         grpc-timeout expires / the malformed rest of the request (`tl`) arrives while that Send is in flight; the Write is
+         released only after Forward returned. Output adds blk=<yes|no> fwd=<returned|pending>; body = bytes in wire order.
+    ws … sp=stall                                 the client stops reading while the target's large answer is sent, sends its last
+         (malformed) message, and reads on only after Forward returned.
+  Every output carries hs=<returned|stuck> (did ServeHTTP return within the session watchdog); `HANG …` = no end of response.
+
   Verdicts: VIOL = the observed behaviour breaks the property text (lossy / reordered / truncated request
   messages, oversize frame not rejected, status ≠ 200, response not `data* trailer`, trailer ≠ outcome);
   DIFF = the observation differs from the model but none of the above.
@@ -202,10 +209,11 @@ def judgeReq (P : List Bytes) (nextOversize : Bool) (complete : Bool) (clientStr
   else none
 
 /-- response-side judgement on decoded frames -/
-def judgeResp (msgs : List Bytes) (block : Bytes) (sd rs : List Bytes) (serverStreaming : Bool)
+def judgeResp (msgs : List Bytes) (block : Bytes) (sd : List Bytes) (sf : Nat) (rs : List Bytes) (serverStreaming : Bool)
     (oc : Nat) (om : Bytes) : Option String :=
   if !(match trailerOutcome block with | some (c, m) => c == oc && beqB m om | none => false) then some "VIOL trailer does not state the call outcome"
-  else if !beqBs msgs sd then some "VIOL response messages altered (≠ what the forwarder sent)"
+  -- every accepted Send is on the wire, in order; a Send abandoned on context end (`sf` of them) may be too
+  else if !(isPrefixBs sd msgs && msgs.length ≤ sd.length + sf) then some "VIOL response messages altered (≠ what the forwarder sent)"
   else if !isPrefixBs msgs rs then some "VIOL response messages are not the target's"
   else if oc == 0 && serverStreaming && !beqBs msgs rs then some "VIOL response messages lost"
   else none
@@ -236,15 +244,19 @@ def handleHTTP (i o : List String) : String :=
         (kv? "rs" i).bind (parseList parseCB), (kv? "fs" i).bind parseCodeMsg,
         (kv? "tm" i).bind (parseList parseKV), kv? "ea" i with
   | some k, some rt, some frs, some tl, some rs, some _fs, some tm, some ea =>
-    if o.head? == some "HANG" then "VIOL handler did not finish" else
+    if o.head? == some "HANG" then s!"VIOL the call never ends ({o.getD 1 ""} handler={(kv? "hs" o).getD "?"})" else
     if o.head? == some "PANIC" then "VIOL panic" else
+    if (kv? "hs" o).getD "returned" != "returned" then "VIOL handler=stuck: ServeHTTP did not return after the response ended" else
     match (kv? "st" o).bind String.toNat?, (kv? "rv" o).bind (parseList parseORes), (kv? "tg" o).bind (parseList parseCB),
           kv? "te" o, (kv? "sd" o).bind (parseList parseCB), (kv? "oc" o).bind parseCodeMsg,
           (kv? "body" o).bind parseCB, kv? "gd" o, (kv? "tr" o).bind (parseList parseKV) with
     | some st, some rv, some tg, some te, some sd, some (oc, om), some body, some gd, some tr =>
       let cs : Bool := k == "cs" || k == "bd"
       let ss : Bool := k == "ss" || k == "bd"
-      let early : Bool := ea != "-"
+      let sp := (kv? "sp" i).getD ""
+      let stalled : Bool := sp != ""
+      let early : Bool := ea != "-" || stalled
+      let sf := ((kv? "sf" o).bind String.toNat?).getD 0
       let wire := frs.flatMap FrameD.enc ++ tl
       let P := wfPrefix (some maxMsg) frs
       let nextOver := match frs.drop P.length with | f :: _ => decide (f.len > maxMsg) | [] => false
@@ -258,9 +270,16 @@ def handleHTTP (i o : List String) : String :=
         match reqV with
         | some v => v
         | none =>
-        match judgeResp msgs block sd rs ss oc om with
+        match judgeResp msgs block sd sf rs ss oc om with
         | some v => v
         | none =>
+          -- stalled-Send scenarios: the interleaving must have been established, the outcome is the deadline /
+          -- the request-side error the model predicts
+          let spOK : Bool := !stalled ||
+            ((kv? "blk" o) == some "yes" && (kv? "fwd" o) == some "returned" &&
+             (if sp.startsWith "timeout" then oc == 4
+              else match (recvTrace (frs.length + 1) wire).getLast? with | some (.err e) => oc == e.code | _ => false))
+          if !spOK then "DIFF model=stalled-send scenario not established or outcome differs" else
           -- model equality
           let mrv := recvTrace rv.length wire
           -- the same through the chunked-reader model, with the chunking the harness used (small bodies only)
@@ -270,7 +289,7 @@ def handleHTTP (i o : List String) : String :=
              | none => false)
           let rvOK : Bool := early || (oresListEq rv mrv && chunkOK)
           let md := match parseTrailer block with | some m => m | none => []
-          let bodyOK : Bool := beqB body (respondHTTPWith sd md) &&
+          let bodyOK : Bool := beqB body (respondHTTPWith msgs md) &&
             mdLines md == mdLines (trailerWithStatus tr oc om) && subMD tr tm
           let ocOK : Bool := if routed then
               (match rv.getLast? with | some (.err c) => early || oc == c | _ => true)
@@ -283,6 +302,7 @@ def handleHTTP (i o : List String) : String :=
           else
             let big : Bool := frs.any (fun f => f.payload.length ≥ 65536) || rs.any (fun m => m.length ≥ 65536)
             let br := if !routed then "route-fail"
+              else if stalled then "stalled-send"
               else match rv.getLast? with
                 | some (.err 8) => "oversize"
                 | some (.err _) => "recv-error"
@@ -318,8 +338,9 @@ def handleWS (i o : List String) : String :=
   match kv? "k" i, kv? "rt" i, kv? "hd" i, (kv? "ms" i).bind (parseList parseWSItem),
         (kv? "rs" i).bind (parseList parseCB), (kv? "tm" i).bind (parseList parseKV), kv? "ea" i with
   | some k, some rt, some hd, some items, some rs, some tm, some ea =>
-    if o.head? == some "HANG" then "VIOL handler did not finish" else
+    if o.head? == some "HANG" then s!"VIOL the call never ends ({o.getD 1 ""})" else
     if o.head? == some "PANIC" then "VIOL panic" else
+    if (kv? "hs" o).getD "returned" != "returned" then "VIOL handler=stuck: ServeHTTP did not return after the close frame" else
     match (kv? "up" o).bind String.toNat?, (kv? "ws" o).bind (parseList parseCB), kv? "cl" o,
           (kv? "rv" o).bind (parseList parseORes), (kv? "tg" o).bind (parseList parseCB),
           kv? "te" o, (kv? "sd" o).bind (parseList parseCB), kv? "oc" o, (kv? "tr" o).bind (parseList parseKV) with
@@ -327,6 +348,9 @@ def handleWS (i o : List String) : String :=
       let cs : Bool := k == "cs" || k == "bd"
       let ss : Bool := k == "ss" || k == "bd"
       let early : Bool := ea != "-"
+      let stalled : Bool := (kv? "sp" i).isSome
+      let early : Bool := early || stalled
+      let sf := ((kv? "sf" o).bind String.toNat?).getD 0
       let hdOK : Bool := hd.startsWith "ok:"
       let hdBytes := match parseCB ((hd.drop 3).toString) with | some b => b | none => []
       if up ≠ 101 then s!"VIOL websocket upgrade status {up}" else
@@ -345,15 +369,17 @@ def handleWS (i o : List String) : String :=
         match reqV with
         | some v => v
         | none =>
-        match judgeResp msgs block sd rs ss oc om with
+        match judgeResp msgs block sd sf rs ss oc om with
         | some v => v
         | none =>
+          let spOK : Bool := !stalled || ((kv? "blk" o) == some "yes" && (kv? "fwd" o) == some "returned")
+          if !spOK then "DIFF model=stalled-send scenario not established" else
           let evs := wsEvents (fun _ => hdOK) {} (hdBytes :: items.map WSItem.enc)
           let mrv := wsRecvTrace rv.length evs
-          let rvOK : Bool := early || oresListEq rv mrv
+          let rvOK : Bool := (early && !stalled) || oresListEq rv mrv
           let md := match parseTrailer block with | some m => m | none => []
           let hmd := match hdr with | some h => (match parseTrailer h with | some m => m | none => [([0], [])]) | none => []
-          let respOK : Bool := beqBs wsm (wsRespondWith hmd sd md) && (hdr.isSome == !sd.isEmpty) && hmd.isEmpty &&
+          let respOK : Bool := beqBs wsm (wsRespondWith hmd msgs md) && (hdr.isSome == !msgs.isEmpty) && hmd.isEmpty &&
             mdLines md == mdLines (trailerWithStatus tr oc om) && subMD tr tm
           let ocOK : Bool := if routed then
               ocs != "-" && (match rv.getLast? with | some (.err c) => early || oc == c | _ => true)
@@ -365,6 +391,7 @@ def handleWS (i o : List String) : String :=
           else
             let big : Bool := items.any (fun it => (WSItem.enc it).length ≥ 65536) || rs.any (fun m => m.length ≥ 65536)
             let br := if !hdOK then "bad-header" else if rt ≠ "ok" then "route-fail"
+              else if stalled then "stalled-send"
               else match rv.getLast? with
                 | some (.err _) => "recv-error"
                 | _ => if oc = 0 then "ok" else "status"
